@@ -215,7 +215,9 @@ def run(ctx):
     # ---- termination and robustness on files that do not end on a packet boundary / are empty (child process, time limit)
     extra = [("empty", make_file(tmp, 0, "empty.bin")), ("truncated-header", make_file(tmp, 3, "th.bin", b"\x08\x64\xc0")),
              ("truncated-body", make_file(tmp, 3, "tb.bin", defs.mk_packet(bytes(20), apid=7)[:12])),
-             ("garbage", make_file(tmp, 0, "g.bin", bytes(range(5))))]
+             ("garbage", make_file(tmp, 0, "g.bin", bytes(range(5)))),
+             # well-framed packets whose data field is shorter / longer than the definition consumes: shown (with a warning), no traceback
+             ("short-data-field", make_file(tmp, 3, "short.bin", datalen=1)), ("long-data-field", make_file(tmp, 3, "long.bin", datalen=5))]
     hung = set()
     for label, path in extra:
         for args in (["describe-packets", path], ["parse", path, xt], ["parse", path, xt, "--packet=0"]):
@@ -275,6 +277,19 @@ def mixed_section(ctx, tmp):
     packet 0, indices outside 0..n-1 get the out-of-range message, indices in between show at most one packet or a message - and no index
     ends in a traceback."""
     xt2 = xtce_file_partly(tmp)
+    # (the same files with the roles swapped - the FIRST packet is an unrecognised one - must not end in a traceback either)
+    for n in (1, 2, 5):
+        path = os.path.join(tmp, f"mixed-first-unrecognised{n}.bin")
+        with open(path, "wb") as f:
+            for j in range(n):
+                f.write(defs.mk_packet(bytes([j, 0xAB]), apid=(APID0 + j) if j % 2 == 1 else 1500 + j, seq=j))
+        for args in (["parse", path, xt2], ["parse", path, xt2, "--packet=0"], ["parse", path, xt2, f"--packet={n}"]):
+            rc, out, exc = in_process(args)
+            ctx.traces += 1
+            ctx.count(("parse-mixed-first-unrecognised", n, tuple(args[3:])))
+            if rc != 0 or exc is not None or "Traceback" in out:
+                ctx.violation("C19/parse-mixed/crash", f"file of {n} packets starting with an unrecognised one, spp {' '.join(args[:1] + args[3:])}: exit {rc}, "
+                              f"exception {exc!r}", {"cmd": "parse-mixed", "n": n, "first": "unrecognised", "args": args[3:]})
     for n in (1, 2, 5, 6, 11):
         path = os.path.join(tmp, f"mixed{n}.bin")
         with open(path, "wb") as f:
